@@ -138,7 +138,8 @@ def gen_config(variant="default"):
     """Write the three generated headers for a variant; returns the include directory.
     An unresolved ${VAR} in a template is a broken tie (raises)."""
     vals = config_values(variant)
-    d = os.path.join(WORK, "gen", variant)
+    top = os.path.join(WORK, "gen", variant)
+    d = os.path.join(top, "generated")      # sources say #include "generated/cjet_config.h"
     os.makedirs(d, exist_ok=True)
     for tmpl, name in (("cjet_config.h.in", "cjet_config.h"), ("linux/config/os_config.h.in", "os_config.h"),
                        ("version.h.in", "version.h")):
@@ -156,7 +157,7 @@ def gen_config(variant="default"):
         if old != txt:
             with open(p, "w") as f:
                 f.write(txt)
-    return d
+    return top
 
 
 # --------------------------------------------------------------------------- C harness builds (cached)
@@ -175,7 +176,7 @@ def cc_build(name, sources, variant="default", extra_flags=(), link_flags=(), sa
     flags = list(CSTD) + (SAN if sanitize else []) + ["-I" + inc, "-I" + SRC] + list(extra_flags) + \
         ["-D" + d for d in defines]
     key = hashlib.sha256(json.dumps([name, repo_fingerprint(), file_hash(sources), file_hash(
-        glob.glob(os.path.join(inc, "*.h"))), flags, list(link_flags), cxx]).encode()).hexdigest()[:20]
+        glob.glob(os.path.join(inc, "generated", "*.h"))), flags, list(link_flags), cxx]).encode()).hexdigest()[:20]
     outdir = os.path.join(WORK, "cache", key)
     binp = os.path.join(outdir, name)
     if os.path.exists(binp):
